@@ -32,6 +32,7 @@ type Frame struct {
 	retDone bool
 	// native continuation: if non-nil, called with the callee's result instead of storing into regs
 	inDefers bool
+	wrap     func(st *State, r Value) Value // transforms the result on return (reflect.Value.Call)
 }
 
 type Thread struct {
